@@ -29,7 +29,7 @@ type gen struct {
 func newGen(r *lib.Rng, model bool) *gen {
 	g := &gen{r: r, model: model, depth: 2}
 	g.special = r.Chance(1, 12)
-	g.binds = !model && r.Chance(1, 10)
+	g.binds = r.Chance(1, 10)
 	g.dualID = r.Chance(1, 25)
 	return g
 }
@@ -65,7 +65,8 @@ func (g *gen) ident() string {
 
 // every literal form Tokenizer.Scan knows; the ones outside the model fragment only when !g.model
 var lexForms = []string{"x'1f'", "x'1F2a'", "X'AB'", "x''", "0x1F", "0xab", "b'01'", "b'1'", "B'101'", "b''",
-	"@v", "@@global_var", "\"dq\"", "1e3", "2.5E-2", ".5e+2", "1.", "0.0", "1E10"}
+	"1e3", "2.5E-2", ".5e+2", "1.", "0.0", "1E10"}
+var lexFormsExtra = []string{"@v", "@@global_var", "\"dq\""}
 var plainStrings = []string{"", "abc", "it''s", "a b", "100%", "x\\ny", "żółw", "--no comment", "a`b", "a\\'b", "back\\\\slash", "\\d+\\.\\w", "q\\0z", "/* c */", "?", ":v1", "x''1f''"}
 var specialStrings = []string{"a\tb", "say \"hi\"", "c\rd", "\x00nul", "bs\bx", "z\x1az"} // bytes the printer used to escape but the tokenizer does not decode
 
@@ -76,8 +77,11 @@ func (g *gen) literal() string {
 	if g.binds && g.r.Chance(1, 4) {
 		return "?"
 	}
-	if !g.model && g.r.Chance(1, 5) {
+	if g.r.Chance(1, 6) {
 		return g.pick(lexForms)
+	}
+	if !g.model && g.r.Chance(1, 12) {
+		return g.pick(lexFormsExtra)
 	}
 	switch g.r.Intn(9) {
 	case 0:
@@ -145,16 +149,24 @@ func (g *gen) primary() string {
 	case 10:
 		return g.kw("CONVERT") + "(" + g.expr() + ", " + g.typeName() + ")"
 	case 11:
-		return "(" + g.selectStmt() + ")"
+		return "(" + g.stmtWith() + ")"
+	case 13:
+		c := g.kw("CASE")
+		if g.r.Bool() {
+			c += " " + g.expr()
+		}
+		for i := 1 + g.r.Intn(2); i > 0; i-- {
+			c += " " + g.kw("WHEN") + " " + g.expr() + " " + g.kw("THEN") + " " + g.expr()
+		}
+		if g.r.Bool() {
+			c += " " + g.kw("ELSE") + " " + g.expr()
+		}
+		return c + " " + g.kw("END")
 	case 12:
 		if !g.model {
 			switch g.r.Intn(6) {
-			case 0:
-				return g.kw("CASE") + " " + g.kw("WHEN") + " " + g.expr() + " " + g.kw("THEN") + " " + g.expr() + " " + g.kw("ELSE") + " " + g.expr() + " " + g.kw("END")
-			case 1:
+			case 0, 1:
 				return g.kw("CAST") + "(" + g.expr() + " " + g.kw("AS") + " " + g.typeName() + ")"
-			case 2:
-				return g.column() + "[" + g.valueExpr() + "]"
 			case 3:
 				return "`" + g.pick([]string{"select", "from", "where", "group"}) + "`(" + g.expr() + ")"
 			case 4:
@@ -184,9 +196,11 @@ func (g *gen) typeName() string {
 func (g *gen) postfix() string {
 	e := g.primary()
 	for g.r.Chance(1, 4) {
-		switch g.r.Intn(3) {
+		switch g.r.Intn(4) {
 		case 0, 1:
 			e += "->" + g.pick([]string{"a", "field", "Name", "`key`", "x1"})
+		case 2:
+			e += "[" + g.valueExpr() + "]"
 		default:
 			e += "::" + g.typeName()
 		}
@@ -244,21 +258,24 @@ func (g *gen) cond() string {
 			n = g.kw("NOT") + " "
 		}
 		if g.r.Chance(1, 3) && g.depth < 5 {
-			return l + " " + n + g.kw("IN") + " (" + g.selectStmt() + ")"
+			return l + " " + n + g.kw("IN") + " (" + g.stmtWith() + ")"
 		}
 		return l + " " + n + g.kw("IN") + " (" + g.exprList(1+g.r.Intn(3)) + ")"
 	case 7:
+		n := ""
+		if g.r.Bool() {
+			n = g.kw("NOT") + " "
+		}
+		return l + " " + n + g.kw("BETWEEN") + " " + g.valueExpr() + " " + g.kw("AND") + " " + g.valueExpr()
+	case 8:
+		return l + " " + g.pick([]string{"~", "~*", "!~", "!~*", "REGEXP", "regexp", "NOT REGEXP"}) + " " + g.valueExpr()
+	case 9:
+		if g.depth < 5 {
+			return g.kw("EXISTS") + " (" + g.stmtWith() + ")"
+		}
+	case 10:
 		if !g.model {
-			switch g.r.Intn(5) {
-			case 0:
-				return l + " " + g.kw("BETWEEN") + " " + g.valueExpr() + " " + g.kw("AND") + " " + g.valueExpr()
-			case 1:
-				return l + " " + g.pick([]string{"~", "~*", "!~", "!~*", "REGEXP"}) + " " + g.valueExpr()
-			case 2:
-				return l + " " + g.kw("LIKE") + " " + g.valueExpr() + " " + g.kw("ESCAPE") + " '!'"
-			case 3:
-				return g.kw("EXISTS") + " (" + g.selectStmt() + ")"
-			}
+			return l + " " + g.kw("LIKE") + " " + g.valueExpr() + " " + g.kw("ESCAPE") + " '!'"
 		}
 	}
 	return l
@@ -331,7 +348,7 @@ func (g *gen) tableFactor() string {
 	}
 	switch g.r.Intn(10) {
 	case 0:
-		return "(" + g.selectStmt() + ")" + g.alias(true)
+		return "(" + g.stmtWith() + ")" + g.alias(true)
 	case 1:
 		l := g.tableRef()
 		for g.r.Chance(1, 3) {
@@ -372,10 +389,13 @@ func (g *gen) tableRef() string {
 			}
 			t += " " + g.kw(j) + " " + right + " " + g.kw("ON") + " " + g.expr()
 		case 6:
-			if !g.model {
-				t += " " + g.pick([]string{"INNER JOIN", "CROSS JOIN", "NATURAL JOIN", "STRAIGHT_JOIN"}) + " " + g.tableFactor()
+			if !g.model && g.r.Bool() {
+				t += " " + g.pick([]string{"NATURAL JOIN", "STRAIGHT_JOIN"}) + " " + g.tableFactor()
 			} else {
-				t += " " + g.kw("JOIN") + " " + g.tableFactor()
+				t += " " + g.pick([]string{"INNER JOIN", "CROSS JOIN", "inner join", "LOOKUP INNER JOIN"}) + " " + g.tableFactor()
+				if g.r.Bool() {
+					t += " " + g.kw("ON") + " " + g.expr()
+				}
 			}
 		case 7:
 			if !g.model {
@@ -431,7 +451,7 @@ func (g *gen) selectStmt() string {
 	}
 	if g.r.Chance(1, 3) {
 		s += " " + g.kw("GROUP") + " " + g.kw("BY") + " " + g.exprList(1+g.r.Intn(2))
-		if !g.model && g.r.Chance(1, 3) {
+		if g.r.Chance(1, 3) {
 			s += " " + g.kw("HAVING") + " " + g.expr()
 		}
 	}
@@ -468,17 +488,30 @@ func (g *gen) selectStmt() string {
 	return s
 }
 
-func (g *gen) statement() string {
+// select_statement: SELECT …, or WITH cte, … [,] select_statement
+func (g *gen) stmtWith() string {
 	s := g.selectStmt()
-	if !g.model {
-		switch g.r.Intn(6) {
-		case 0:
-			return "WITH " + g.ident() + " AS (" + g.selectStmt() + ") " + s
-		case 1:
-			return "WITH c1 AS (" + g.selectStmt() + "), c2 AS (" + g.selectStmt() + ") " + s
-		case 2:
-			return "(" + s + ") UNION ALL (" + g.selectStmt() + ")"
+	if g.depth < 5 && g.r.Chance(1, 5) {
+		g.depth++
+		n := 1 + g.r.Intn(2)
+		var ctes []string
+		for i := 0; i < n; i++ {
+			ctes = append(ctes, g.ident()+" "+g.kw("AS")+" ("+g.stmtWith()+")")
 		}
+		g.depth--
+		w := g.kw("WITH") + " " + strings.Join(ctes, ", ")
+		if g.r.Chance(1, 5) {
+			w += "," // comma_opt
+		}
+		return w + " " + s
+	}
+	return s
+}
+
+func (g *gen) statement() string {
+	s := g.stmtWith()
+	if !g.model && g.r.Chance(1, 6) {
+		return "(" + s + ") UNION ALL (" + g.selectStmt() + ")"
 	}
 	return s
 }
@@ -731,8 +764,6 @@ func runCases(f lib.Flags) error {
 	nExtra := f.Cases(160, 2000)
 	nMut := f.Cases(600, 8000)
 
-	emptySel := "(false, [], Select false [SStar] [TName [] [116] []] None [] [] [] None, [])" // placeholder for statements outside the model
-	_ = emptySel
 	handle := func(s string, insyntax bool, origin string) {
 		cf.Count("generated_" + origin)
 		o, parsed := roundTrip(s)
@@ -746,13 +777,13 @@ func runCases(f lib.Flags) error {
 		cf.Count("accepted_" + origin)
 		srcToks, lexOk := tokenize(s)
 		js := map[string]interface{}{"statement": s, "printed": o.printed, "origin": origin}
-		sel, isSel := o.tree.(*sqlparser.Select)
+		sel, isSel := o.tree.(sqlparser.SelectStatement)
 		inModel := false
 		var sr *ser
 		coq := ""
 		if isSel && lexOk && o.what == "" {
 			sr = newSer()
-			ast := sr.sel(sel)
+			ast := sr.stmt(sel)
 			if sr.ok {
 				prToks, ok2 := tokenize(o.printed)
 				if ok2 {
@@ -776,6 +807,12 @@ func runCases(f lib.Flags) error {
 			for k := range sr.feat {
 				cf.Count("ext_" + k)
 			}
+			for k := range sr.feat2 {
+				cf.Count("construct_" + k)
+			}
+			if len(sr.feat2) == 0 {
+				cf.Count("in_model_fragment_as_before_the_deepening_round") // uses none of the constructs added to the fragment then
+			}
 			cf.Count("in_model_fragment")
 			if insyntax {
 				cf.Count("in_model_syntax")
@@ -783,7 +820,7 @@ func runCases(f lib.Flags) error {
 		} else {
 			cf.Count("outside_model_fragment (implementation oracle only)")
 			// the case list is homogeneous: a statement outside the model is represented by a fixed trivial case
-			coq = "(false, [TK K_select; TK P_star; TK K_from; TId [116]], Select false [SStar] [TName [] [116] []] None [] [] [] None, [TK K_select; TK P_star; TK K_from; TId [116]])"
+			coq = "(false, [TK K_select; TK P_star; TK K_from; TId [116]], Select false [SStar] [TName [] [116] []] None [] None [] [] None, [TK K_select; TK P_star; TK K_from; TId [116]])"
 			low := strings.ToLower(s)
 			nontrivial = strings.Contains(low, "trigger") || strings.Contains(low, "=>") || strings.Contains(low, "->") || strings.Contains(low, "::") || strings.Contains(low, "lookup")
 		}
